@@ -36,6 +36,22 @@ type h12Env struct {
 	slowPeer  atomic.Value // net.IP: OnPermissionDeleted / OnChannelDeleted for this peer take slowFor (they run under the entry list's lock)
 	slowFor   atomic.Int64
 	permNew   atomic.Int64 // nanoseconds OnPermissionCreated takes
+	permMade  atomic.Int64 // OnPermissionCreated events
+	connClose atomic.Int64 // nanoseconds Close of an outgoing peer connection takes
+}
+
+// slowCloseConn: a peer connection whose Close takes a while (a TLS shutdown, a lingering socket)
+type slowCloseConn struct {
+	net.Conn
+	e *h12Env
+}
+
+func (c *slowCloseConn) Close() error {
+	if d := time.Duration(c.e.connClose.Load()); d > 0 {
+		time.Sleep(d)
+	}
+
+	return c.Conn.Close()
 }
 
 func (e *h12Env) slowIf(ip net.IP) {
@@ -69,12 +85,17 @@ func newH12Env(vt *vhT, bindTimeout time.Duration) *h12Env {
 				time.Sleep(d)
 			}
 			d := net.Dialer{Timeout: 3 * time.Second}
+			c, err := d.Dial(info.Network, info.RemoteAddr.String())
+			if err != nil {
+				return nil, err
+			}
 
-			return d.Dial(info.Network, info.RemoteAddr.String())
+			return &slowCloseConn{Conn: c, e: e}, nil
 		},
 		EventHandler: EventHandler{
 			OnPermissionCreated: func(_, _ net.Addr, _, _, _ string, _ net.Addr, peer net.IP) {
 				e.events.Add(1)
+				e.permMade.Add(1)
 				if d := time.Duration(e.permNew.Load()); d > 0 {
 					time.Sleep(d)
 				}
@@ -645,17 +666,24 @@ func runH12AttachRacesDelete(vt *vhT, rounds int) {
 		var wg sync.WaitGroup
 		wg.Add(2)
 		go func() { defer wg.Done(); <-start; e.m.DeleteAllocation(ft) }()
+		made := e.permMade.Load()
+		var bindErr error
 		go func() {
 			defer wg.Done()
 			<-start
 			if i%2 == 0 {
-				_ = alice.AddChannelBind(NewChannelBind(0x4030, p, e.m.log), time.Minute, time.Minute)
+				bindErr = alice.AddChannelBind(NewChannelBind(0x4030, p, e.m.log), time.Minute, time.Minute)
 			} else {
 				alice.AddPermission(NewPermission(p, e.m.log, time.Minute))
 			}
 		}()
 		close(start)
 		wg.Wait()
+		if i%2 == 0 && bindErr == nil && e.permMade.Load() == made && left == 0 {
+			left++
+			vt.Alarm("success-for-ended-allocation", "round %d: a new ChannelBind raced with DeleteAllocation: AddChannelBind reported success although the permission that goes with "+
+				"the binding was refused (the allocation had ended): the request would be answered with success for nothing", i)
+		}
 		if n := len(alice.ListPermissions()) + len(alice.ListChannelBindings()); n != 0 {
 			left++
 			vt.Alarm("state-attached-to-dead-allocation", "round %d: DeleteAllocation raced with a handler attaching to the allocation: %d entries are left on the deleted allocation "+
@@ -668,6 +696,52 @@ func runH12AttachRacesDelete(vt *vhT, rounds int) {
 			}
 		}
 	}
+	vt.Obs("ok")
+}
+
+// the refresh of a permission while the allocation is being torn down: Close has marked it ended but has not reached the
+// permissions yet (it is still closing a peer connection that takes its time) - the refresh must be refused like an insert
+func runH12RefreshOnEndingAllocation(vt *vhT) {
+	vt.OpSync("slowcb conn-Close permission-refresh 1")
+	e := newH12Env(vt, 2*time.Second)
+	if e == nil {
+		vt.Obs("ok")
+
+		return
+	}
+	defer e.close()
+	alice, ft := e.alloc("alice", proto.ProtoTCP, time.Minute)
+	if alice == nil {
+		vt.Obs("ok")
+
+		return
+	}
+	pa := e.peerAddr()
+	p := &net.TCPAddr{IP: pa.IP, Port: pa.Port}
+	alice.AddPermission(NewPermission(p, e.m.log, time.Minute))
+	if _, err := e.m.CreateTCPConnection(alice, pa); err != nil {
+		vt.Alarm("h12-setup", "refresh-on-ending-allocation: %v", err)
+		vt.Obs("ok")
+
+		return
+	}
+	e.connClose.Store(int64(400 * time.Millisecond))
+	go e.m.DeleteAllocation(ft)
+	time.Sleep(150 * time.Millisecond) // Close is now inside the slow close of the peer connection
+	if !alice.isClosed() || alice.GetPermission(p) == nil {
+		vt.Note("teardown not in the expected phase (closed=%v), scenario void", alice.isClosed())
+		vt.Obs("ok")
+		time.Sleep(400 * time.Millisecond)
+
+		return
+	}
+	var res any = alice.AddPermission(NewPermission(p, e.m.log, time.Minute))
+	if res == nil {
+		vt.Alarm("success-for-ended-allocation", "the refresh of a permission on an allocation that Close had already marked ended (it was still closing a peer connection) "+
+			"reported success: CreatePermission / ChannelBind would be answered with success for an allocation that is gone a moment later")
+	}
+	time.Sleep(400 * time.Millisecond)
+	e.connClose.Store(0)
 	vt.Obs("ok")
 }
 
@@ -694,6 +768,8 @@ func TestVerifH12(t *testing.T) {
 		vt.Flush()
 	}
 	runH12CallbackVsDataPath(vt)
+	vt.Flush()
+	runH12RefreshOnEndingAllocation(vt)
 	vt.Flush()
 	rounds := 1500
 	if vt.Thorough() {
